@@ -767,6 +767,107 @@ fn random_wbuf(rng: &mut impl Rng) -> Value {
     scn
 }
 
+/// The production pipeline around StreamingPersistence (integration.rs): delta sink -> bridge task -> persistence
+/// actor, flushing by itself when the buffer thresholds are reached and once more at graceful shutdown.  No flush
+/// boundary is visible from outside, so every crash image is judged by the call-level rules only (recovery
+/// succeeds, the manifest is sound, nothing is invented); after a graceful shutdown of a run without faults the
+/// trace ends with a confirmation of everything sent and a last crash image.
+async fn run_pipeline_async(scn: Value, store: ScriptedObjectStore) {
+    use redis_sim::streaming::integration::StreamingIntegration;
+    use redis_sim::streaming::StreamingConfig;
+    let mut cfg = StreamingConfig::test();
+    cfg.prefix = PREFIX.to_string();
+    cfg.write_buffer = wb_config_with(scn["max_deltas"].as_u64().unwrap_or(2) as usize);
+    cfg.compaction.max_segments = 0; // no compaction worker here (flush / compaction overlap is C13's family)
+    {
+        let mut g = store.inner.lock().unwrap();
+        for f in scn["faults"].as_array().cloned().unwrap_or_default() {
+            g.faults.push((0, f[0].as_str().unwrap().to_string(), f[1].as_str().unwrap().to_string()));
+        }
+    }
+    let integ = StreamingIntegration::with_store(Arc::new(store.clone()), cfg, 1);
+    let (handles, sender) = match integ.start_workers().await {
+        Ok(x) => x,
+        Err(e) => {
+            store.log(json!({"a": "panic", "msg": format!("start_workers: {e}")}));
+            return;
+        }
+    };
+    let ups = scn["ups"].as_array().cloned().unwrap_or_default();
+    for (i, d) in ups.iter().enumerate() {
+        let delta = mk_delta(d);
+        let rv = obs(&delta.value);
+        let ok = sender.send(delta).is_ok();
+        store.log(json!({"a": "push", "id": d["id"], "k": d["k"], "rv": rv, "ok": ok}));
+        if scn["pauses"].as_array().map(|p| p.iter().any(|x| x.as_u64() == Some(i as u64))).unwrap_or(false) {
+            tokio::time::sleep(Duration::from_millis(25)).await;
+        }
+    }
+    tokio::time::sleep(Duration::from_millis(25)).await;
+    handles.shutdown().await;
+    let clean = scn["faults"].as_array().map(|f| f.is_empty()).unwrap_or(true);
+    store.log(json!({"a": "shutdown", "clean": clean}));
+    let img = store.inner.lock().unwrap().objs.clone();
+    let mut v = recover_state(&img).await;
+    v["a"] = json!("crashcheck");
+    v["final"] = json!(true);
+    store.log(v);
+}
+
+pub fn run_pipeline(run: usize, scn: &Value, out: &mut Out) {
+    let store = ScriptedObjectStore::new(true);
+    out.emit(&json!({"a": "reset", "run": run, "scn": scn}));
+    let rt = tokio::runtime::Builder::new_current_thread().enable_all().start_paused(true).build().unwrap();
+    let st2 = store.clone();
+    let scn2 = scn.clone();
+    let res = catch(move || rt.block_on(run_pipeline_async(scn2, st2)));
+    let mut g = store.inner.lock().unwrap_or_else(|p| p.into_inner());
+    for mut ev in std::mem::take(&mut g.log) {
+        ev["run"] = json!(run);
+        out.emit(&ev);
+    }
+    if let Err(p) = res {
+        out.emit(&json!({"a": "panic", "run": run, "msg": p}));
+    }
+}
+
+fn random_pipeline(rng: &mut impl Rng) -> Value {
+    let n = rng.gen_range(2..=9usize);
+    let keys = ["a", "b", "c"];
+    let mut ups = Vec::new();
+    for i in 0..n {
+        let k = keys[rng.gen_range(0..3)];
+        let ts = i as u64 + 1;
+        ups.push(match rng.gen_range(0..6) {
+            0 => json!({"id": i + 1, "k": k, "t": "del", "ts": ts, "r": 1}),
+            1 | 2 => json!({"id": i + 1, "k": k, "t": "hset", "f": format!("f{}", rng.gen_range(0..3)), "v": format!("h{i}"), "ts": ts, "r": 1 + rng.gen_range(0..2)}),
+            _ => json!({"id": i + 1, "k": k, "t": "set", "v": format!("v{i}"), "ts": ts, "r": 1}),
+        });
+    }
+    // keys keep one CRDT kind per run (a kind change is C06 / C07's subject)
+    let mut kind: HashMap<String, String> = HashMap::new();
+    for u in ups.iter_mut() {
+        let k = u["k"].as_str().unwrap().to_string();
+        let t = if u["t"] == "hset" { "hash" } else { "reg" }.to_string();
+        let first = kind.entry(k).or_insert(t.clone()).clone();
+        if first != t {
+            let (id, kk, ts) = (u["id"].clone(), u["k"].clone(), u["ts"].clone());
+            *u = if first == "hash" { json!({"id": id, "k": kk, "t": "hset", "f": "f0", "v": "x", "ts": ts, "r": 1}) } else { json!({"id": id, "k": kk, "t": "set", "v": "x", "ts": ts, "r": 1}) };
+        }
+    }
+    let pauses: Vec<usize> = (0..n).filter(|_| rng.gen_bool(0.4)).collect();
+    let faults: Vec<Value> = match rng.gen_range(0..10) {
+        0 => vec![json!(["put_seg", "fail"])],
+        1 => vec![json!(["put_seg", "partial"])],
+        2 => vec![json!(["put_tmp", "fail"])],
+        3 => vec![json!(["rename", "fail"])],
+        4 => vec![json!(["rename", "applied"])],
+        _ => vec![],
+    };
+    let md = [1usize, 2, 3, 100][rng.gen_range(0..4)];
+    json!({"ups": ups, "max_deltas": md, "pauses": pauses, "faults": faults})
+}
+
 pub fn main(args: &[String]) -> i32 {
     let a = Args::parse(args);
     quiet_panics();
@@ -782,6 +883,13 @@ pub fn main(args: &[String]) -> i32 {
             for i in 0..a.usize("n", 100) {
                 let s = random_scenario(&mut rng, i, a.u64("cheavy", 0) == 1);
                 run_scenario(i + 1, &s, &mut out);
+            }
+        }
+        Some("pipeline") => {
+            let mut rng = rng(a.u64("seed", 1));
+            for i in 0..a.usize("n", 100) {
+                let s = random_pipeline(&mut rng);
+                run_pipeline(i + 1, &s, &mut out);
             }
         }
         Some("wbuf") => {
